@@ -3165,6 +3165,16 @@ impl LineBuf {
 			MotionKind::Null => { /* Do nothing */ }
 		}
 	}
+	/// A forward motion that ends at the start of a later line (or runs into the end of the buffer)
+	/// takes the text up to the end of the line before, not that line's terminator: 'dw' on the last
+	/// word of a line leaves the line break alone.
+	fn stop_before_terminator(&mut self, start: usize, end: usize) -> (usize,usize) {
+		if end > start + 1 && self.grapheme_at(end - 1) == Some("\n") {
+			(start,end - 1)
+		} else {
+			(start,end)
+		}
+	}
 	pub fn range_from_motion(&mut self, motion: &MotionKind) -> Option<(usize,usize)> {
 		let range = match motion {
 			MotionKind::BlockRange(_) => {
@@ -3189,7 +3199,14 @@ impl LineBuf {
 				}
 				return Some((start,end))
 			}
-			MotionKind::On(pos) => ordered(self.cursor.get(), *pos),
+			MotionKind::On(pos) => {
+				let (start,end) = ordered(self.cursor.get(), *pos);
+				if *pos > self.cursor.get() {
+					self.stop_before_terminator(start,end)
+				} else {
+					(start,end)
+				}
+			}
 			MotionKind::Onto(pos) => {
 				// For motions which include the character at the cursor during operations
 				// but exclude the character during movements
@@ -3198,9 +3215,12 @@ impl LineBuf {
 
 				// We are moving forwards, so add one
 				if pos.get() > cursor_pos.get() {
-					pos.add(1)
+					pos.add(1);
+					let (start,end) = ordered(cursor_pos.get(),pos.get());
+					self.stop_before_terminator(start,end)
+				} else {
+					ordered(cursor_pos.get(),pos.get())
 				}
-				ordered(cursor_pos.get(),pos.get())
 			}
 			MotionKind::Line(n) => {
 				let (start,end) = self.line_bounds(*n)?;
@@ -3231,6 +3251,41 @@ impl LineBuf {
 			MotionKind::Null => return None
 		};
 		Some(range)
+	}
+	/// The text a delete, change or yank takes for this motion, and whether it is taken as whole lines
+	pub fn operator_range(&mut self, verb: &Verb, motion: &MotionKind) -> Option<(usize,usize,bool)> {
+		let (mut start,mut end) = self.range_from_motion(motion)?;
+		// 'dd', 'yy', 'dj', 'dG' and the like work on whole lines, and so does a later 'p'
+		let mut linewise = matches!(motion, MotionKind::InclusiveWithTargetCol(..) | MotionKind::LineOffset(_));
+		if linewise && verb == &Verb::Change && end > start && self.grapheme_at(end - 1) == Some("\n") {
+			// 'cc' empties the line, it does not remove it
+			end -= 1;
+		}
+		let forward = match motion {
+			MotionKind::On(pos) | MotionKind::Onto(pos) => *pos > self.cursor.get(),
+			_ => false
+		};
+		if forward && verb == &Verb::Delete && (start..end).any(|i| self.grapheme_at(i) == Some("\n")) {
+			// A delete over several lines that starts in the indent of its line and leaves nothing
+			// but blanks at its end takes the lines whole
+			let is_blank = |gr: Option<&str>| gr.is_some_and(|gr| gr == " " || gr == "\t");
+			let mut line_start = start;
+			while line_start > 0 && is_blank(self.grapheme_at(line_start - 1)) {
+				line_start -= 1;
+			}
+			let mut line_end = end;
+			while is_blank(self.grapheme_at(line_end)) {
+				line_end += 1;
+			}
+			let starts_line = line_start == 0 || self.grapheme_at(line_start - 1) == Some("\n");
+			let ends_line = self.grapheme_at(line_end).is_none_or(|gr| gr == "\n");
+			if starts_line && ends_line {
+				start = line_start;
+				end = (line_end + 1).min(self.cursor.max);
+				linewise = true;
+			}
+		}
+		Some((start,end,linewise))
 	}
 	pub fn get_register_content(&mut self, verb: &Verb, motion: &MotionKind) -> RegisterContent {
 		let should_drain = verb == &Verb::Delete || verb == &Verb::Change;
@@ -3290,15 +3345,9 @@ impl LineBuf {
 				RegisterContent::Line(line_content)
 			}
 			_ => {
-				let Some((start,mut end)) = self.range_from_motion(motion) else {
+				let Some((start,end,linewise)) = self.operator_range(verb, motion) else {
 					return RegisterContent::Empty
 				};
-				// 'dd', 'yy', 'dj', 'dG' and the like work on whole lines, and so does a later 'p'
-				let linewise = matches!(motion, MotionKind::InclusiveWithTargetCol(..) | MotionKind::LineOffset(_));
-				if linewise && verb == &Verb::Change && end > start && self.grapheme_at(end - 1) == Some("\n") {
-					// 'cc' empties the line, it does not remove it
-					end -= 1;
-				}
 				let content = if should_drain {
 					// If we are deleting or changing, we need to drain the content
 					// and update the grapheme indices
@@ -3326,7 +3375,7 @@ impl LineBuf {
 			Verb::Yank |
 			Verb::Change => {
 				// where the text that is taken starts (the range cannot be asked for once the text is gone)
-				let range_start = self.range_from_motion(&motion).map(|(start,_)| start);
+				let range_start = self.operator_range(&verb, &motion).map(|(start,_,_)| start);
 				let content = self.get_register_content(&verb, &motion);
 				register.write_to_register(content);
 				if let Some(SelectRange::TwoDim(sel)) = self.select_range.as_ref() {
